@@ -152,6 +152,17 @@ def gen_cases(rng, tier):
     pad = "X-Pad: " + "p" * 3800
     near = msg("OPTIONS sip:b@example.org SIP/2.0", BASE_H + [pad], b"tail", cl_pos=0)
     cases.append(_case("head-%d" % n, near, [10, 2000, 4000], [near])); n += 1
+    # heads of exactly the largest legal size and just below it (first byte of the start line through the blank line), alone and pipelined
+    def sized(head_len, body=b"tail"):
+        base = msg("OPTIONS sip:b@example.org SIP/2.0", BASE_H + ["X-Pad: "], body, cl_pos=0)
+        cur = base.index(b"\r\n\r\n") + 4
+        return msg("OPTIONS sip:b@example.org SIP/2.0", BASE_H + ["X-Pad: " + "p" * (head_len - cur)], body, cl_pos=0)
+    for hl in (4093, 4094, 4095, 4096):
+        m = sized(hl)
+        assert m.index(b"\r\n\r\n") + 4 == hl
+        cases.append(_case("hlim-%d" % n, m, [], [m])); n += 1
+        cases.append(_case("hlim-%d" % n, m + ms[0], [hl - 2, hl + 1], [m, ms[0]])); n += 1
+        cases.append(_case("hlim-%d" % n, b"\r\n\r\n" + ms[1] + m, [7, len(ms[1]) + 3000], [ms[1], m])); n += 1
     body5000 = msg("OPTIONS sip:b@example.org SIP/2.0", BASE_H, b"b" * 5000, cl_pos=1)
     cases.append(_case("b5000-%d" % n, body5000 + ms[1], [300, 4097, 4200], [body5000, ms[1]])); n += 1
     # random longer sequences
